@@ -567,9 +567,22 @@ func TestC17Doc(t *testing.T) {
 	rapid.Check(t, func(t *rapid.T) {
 		p := profileFor(recC17)
 		c := &C17DocCase{}
-		if rapid.IntRange(0, 4).Draw(t, "soup") == 0 {
+		blanked := false
+		if k := rapid.IntRange(0, 5).Draw(t, "soup"); k == 0 {
 			c.Text = genSoup(t, 40)
 			c.Ranges = genRanges(t, strings.Count(c.Text, "\n")+1)
+		} else if k == 1 {
+			// a journal with some of its lines emptied (the lines stay): indented lines now follow an
+			// empty line, a directive has lost its first subdirective, a transaction its header
+			pools := gen.GenPools(t, p)
+			lines := strings.SplitAfter(m.Render(gen.GenJournal(t, p, pools, c17Opts)).Text, "\n")
+			for n := rapid.IntRange(1, 3).Draw(t, "nblank"); n > 0; n-- {
+				i := rapid.IntRange(0, len(lines)-1).Draw(t, "blankline")
+				lines[i] = lines[i][len(strings.TrimRight(lines[i], "\r\n")):]
+			}
+			c.Text = strings.Join(lines, "")
+			c.Ranges = genRanges(t, len(lines)+1)
+			blanked = true
 		} else {
 			pools := gen.GenPools(t, p)
 			c.Journal = gen.GenJournal(t, p, pools, c17Opts)
@@ -580,6 +593,9 @@ func TestC17Doc(t *testing.T) {
 		kind := "kind:journal"
 		if c.Journal == nil {
 			kind = "kind:soup"
+		}
+		if blanked {
+			kind = "kind:journal-with-emptied-lines"
 		}
 		recC17.Case(nt, mustJSON(c), append(feats, kind)...)
 		if nt && recC17.WantSample() {
@@ -621,7 +637,13 @@ func TestC17Hist(t *testing.T) {
 			if len(lines) < 3 {
 				continue
 			}
-			switch rapid.IntRange(0, 5).Draw(t, "derive") {
+			switch rapid.IntRange(0, 6).Draw(t, "derive") {
+			case 5:
+				// a line emptied, the line itself kept: the tokens below keep their places while the
+				// token before them is another one
+				k := rapid.IntRange(0, len(lines)-1).Draw(t, "empty")
+				l := lines[k]
+				c.Texts = append(c.Texts, strings.Join(lines[:k], "")+l[len(strings.TrimRight(l, "\r\n")):]+strings.Join(lines[k+1:], ""))
 			case 4:
 				// a line (or a run of lines) written twice: what is inserted looks like its surroundings
 				k := rapid.IntRange(0, len(lines)-1).Draw(t, "dup")
